@@ -411,6 +411,9 @@ class LayoutHandler(LayoutManager):
         self._subcomms = comms
         self._mpi_coords = coords
 
+        # A thread which is only here for plotting purposes is given empty grids
+        self._plot_only = all(len(e) == 0 for e in eta_grids)
+
         self._nAxes = len(nprocs)
         self._nDims = len(nprocs)-nprocs.count(1)
         self._nprocsList = list(np.atleast_1d(nprocs))
@@ -514,7 +517,7 @@ class LayoutHandler(LayoutManager):
 
         """
         # If this thread is only here for plotting purposes then ignore the command
-        if (self._buffer_size == 0):
+        if (self._plot_only):
             return
 
         # Verify that the input makes sense
@@ -1037,6 +1040,9 @@ class LayoutSwapper(LayoutManager):
         buffSize = [x.bufferSize for x in self._managers]
         self._buffer_size = max(buffSize)
 
+        # A thread which is only here for plotting purposes is given empty grids
+        self._plot_only = all(len(e) == 0 for e in eta_grids)
+
         # Create a dictionary to link layouts to their Handlers
         self._handlers = dict()
         for i, h in enumerate(layouts):
@@ -1257,7 +1263,7 @@ class LayoutSwapper(LayoutManager):
 
         """
         # If this thread is only here for plotting purposes then ignore the command
-        if (self._buffer_size == 0):
+        if (self._plot_only):
             return
 
         # Verify that the input makes sense
